@@ -114,6 +114,12 @@ def numpy_int_representer(dumper, data):
     return dumper.represent_int(int(data))
 yaml.add_representer(np.int64, numpy_int_representer)
 yaml.add_representer(np.int32, numpy_int_representer)
+# any other numpy scalar type (float32, int16, uint8, bool_, complex64, ...)
+yaml.add_multi_representer(np.floating, numpy_float_representer)
+yaml.add_multi_representer(np.integer, numpy_int_representer)
+yaml.add_multi_representer(np.complexfloating, complex_representer)
+yaml.add_multi_representer(
+    np.bool_, lambda dumper, data: dumper.represent_bool(bool(data)))
 
 
 # numpy ufuncs can no longer be pickled as of numpy 1.20
